@@ -1,11 +1,14 @@
 L = "libwild/src/layout_rules.rs"
 SPEC = dict(
     id="C15",
-    level_text="Bounded model checking: for every printable-ASCII pattern of <= 5 bytes and section name of <= 5 bytes the real "
-               "SectionRule::new + SectionRule::matches (including the glob crate's compiled matcher) is compared with a "
-               "reference fnmatch, and the hash-table key of every rule is shown to be the key of every name it matches.",
+    level_text="Bounded model checking (reduced claim): for every printable-ASCII pattern of <= 5 bytes and section name of 3..5 bytes "
+               "the real SectionRule::new + SectionRule::matches is compared with a reference fnmatch for rules whose matcher is "
+               "literal, escaped-literal or prefix, and for EVERY rule (Glob matcher included) the hash-table key is shown to be the "
+               "key of every name fnmatch says it matches. The glob crate's compiled matcher itself is not encoded.",
     level_note="Reference fnmatch written as tokenisation + DP in the harness; bracket bodies restricted to plain characters / one "
-               "range; hashbrown's probe order (first-match among equal keys) is trusted, hash_bytes replaced by an injective stub.",
+               "range; hashbrown's probe order (first-match among equal keys) is trusted, hash_bytes replaced by an injective stub; "
+               "compile_glob_pattern and glob::Pattern::matches are stubbed out (did not finish at 2 bytes in 700 s), so what a Glob "
+               "rule answers once consulted is outside the claim.",
     overlays=[(L, "harness/libwild/layout_rules.rs")],
     jobs=15,
     harnesses=[
@@ -41,10 +44,11 @@ SPEC = dict(
         dict(fn="c15_key_p5_n5", file=L, timeout=600),
     ],
     functions_encoded=["layout_rules::SectionRule::new", "SectionRule::matches", "glob_match::analyze_glob_pattern",
-                       "glob_match::unescape_pattern", "glob_match::compile_glob_pattern", "glob::Pattern::new", "glob::Pattern::matches",
+                       "glob_match::unescape_pattern",
                        "layout_rules::section_name_prefix_hash", "SectionNameMatcher::prefix_bytes"],
-    bounds="patterns of 1..=5 and names of 0..=5 printable ASCII bytes (0x21..0x7e), no input-file pattern",
-    outside_bounds="longer patterns/names, non-ASCII, bracket bodies other than plain characters or one range, stray ']', "
+    bounds="patterns of exactly 1,2,3,4,5 and names of exactly 3,4,5 printable ASCII bytes (0x21..0x7e) -- one harness per (pattern length, name length) pair, 15 pairs x 2 obligations -- no input-file pattern",
+    outside_bounds="what a Glob-variant rule answers once it is consulted (glob crate not encoded); names shorter than 3 bytes (a known "
+                   "finding: short keys panic) and longer patterns/names, non-ASCII, bracket bodies other than plain characters or one range, stray ']', "
                    "first-match order between rules (hashbrown), KEEP => never GC'd (C05), file-name patterns",
-    stubs=["std::fmt::format", "crate::hash::hash_bytes -> injective packing of the key bytes"],
+    stubs=["std::fmt::format", "crate::hash::hash_bytes -> injective packing of the key bytes", "glob_match::compile_glob_pattern -> Pattern::default()", "glob::Pattern::matches -> kani::any()", "memchr::memchr2/memchr3 -> byte loops (local-crate calls only)", "std::arch::x86_64::__cpuid_count -> zeros"],
 )
